@@ -25,7 +25,8 @@ m = {
               "source_commits": [], "add_only": True},
     "engines": [{"name": "sa", "path": "sa/", "serves_properties": sorted(CHECKS),
                  "kind_free_text": "purpose-built static analysis over Python's ast: project model + resolver, polynomial-normal-form abstract evaluation of kernels, "
-                                   "axis/tag inference, traversal typestate, effect/alias summaries, geometry forwarding, structural wiring rules"}],
+                                   "axis/tag inference, traversal typestate, effect/alias summaries, geometry forwarding, name-free path summaries of wiring functions (decision tables), a canonicalisation pass "
+                                   "(N1-N16) and inlining of helpers that are new w.r.t. the reference snapshot, structural wiring rules"}],
     "checks": checks,
     "notes": "Static analysis only: every check parses /repo's current working tree and decides rule instances from the source; nothing under /repo is imported or executed. "
              "Exit 0 = obligations hold (KNOWN-FINDING lines for listed defects), 1 = VIOLATION, 2 = ANALYSIS-ERROR (anchor vanished / undecidable). See DESIGN.md.",
